@@ -9,6 +9,7 @@ import (
 
 	"verif/harness/c13"
 	"verif/harness/c14"
+	"verif/harness/c16"
 	"verif/harness/c17"
 	"verif/harness/cr"
 	"verif/harness/cw"
@@ -56,6 +57,8 @@ func main() {
 		}
 	case "wr":
 		cw.RunRB(*out, *out2, *mode)
+	case "c16":
+		c16.Run(*out)
 	case "c17":
 		c17.Run(*out)
 	case "c20":
